@@ -410,6 +410,8 @@ type Task struct {
 	contractsUsed map[string]bool
 	curFn     string
 	rndApps   [][2]string
+	realInt   map[string]bool
+	absMul    bool
 	pendingLets map[string]Val
 	modelNames map[string]string // get-value term -> witness name
 	nfn        int
@@ -817,6 +819,9 @@ func (t *Task) zeroValue(T types.Type) Val {
 	case KBool:
 		return Val{K: KBool, S: tFalse, T: T}
 	case KF32:
+		if !gBV {
+			return Val{K: KF32, S: "0.0", T: T}
+		}
 		return Val{K: KF32, S: "(_ +zero 8 24)", T: T}
 	case KF64:
 		return Val{K: KF64, S: "0.0", T: T}
